@@ -189,3 +189,27 @@ M("C05", "M9-weights-liquidation-kind", (BR, "        holdings_notional_values =
 M("C05", "M10-marking-target-qty-pretrade", (BR, "        target_quantity = abs(self._holdings_quantity[trade.contract] + trade.quantity)", "        target_quantity = abs(self._holdings_quantity[trade.contract])"), "S1.margin-after-trade")
 E("C05", "E1-guard-not", (BR, "            if contract.margin_requirement == 0:\n                continue\n", "            if not contract.margin_requirement:\n                continue\n"))
 E("C05", "E2-target-reordered", (BR, "                liq_price * abs(quantity) * contract.multiplier * contract.margin_requirement", "                contract.margin_requirement * contract.multiplier * abs(quantity) * liq_price"))
+
+# ------------------------------------------------------------------ C06
+M("C06", "M1-cash-write-unconditional", (BR, "        if accrue:\n            self._holdings_quantity[self.base_currency] += accrued_interest\n            self._last_accrual = now", "        self._holdings_quantity[self.base_currency] += accrued_interest\n        if accrue:\n            self._last_accrual = now"), "S5")
+M("C06", "M2-clock-outside-accrue", (BR, "        if accrue:\n            self._holdings_quantity[self.base_currency] += accrued_interest\n            self._last_accrual = now", "        if accrue:\n            self._holdings_quantity[self.base_currency] += accrued_interest\n        self._last_accrual = now"), "S5")
+M("C06", "M3-lte-raises", (BR, "        if now < self._last_accrual:", "        if now <= self._last_accrual:"), "S6.earlier-time-rejected")
+M("C06", "M4-simple-interest", (BR, "        rate_period = (1 + cagr) ** years - 1", "        rate_period = (1 + cagr) * years - 1"), "S3")
+M("C06", "M5-margin-earns", (BR, "        amount = self._holdings_quantity[self.base_currency]\n", "        amount = self._holdings_quantity[self.base_currency]\n        amount += sum(self._holdings_margins.values())\n"), None)
+M("C06", "M6-markup-sign", (BR, "        cagr = order_book.mid_price - self.fees.markup * np.sign(amount)", "        cagr = order_book.mid_price + self.fees.markup * np.sign(amount)"), "S1.rate-minus-markup-times-sign")
+M("C06", "M7-360-day-year", (BR, "SECONDS_IN_YEAR = 365 * 24 * 60 * 60", "SECONDS_IN_YEAR = 360 * 24 * 60 * 60"), "S3")
+M("C06", "M8-no-floor", (BR, "        if amount > 0. and accrued_interest < 0.:\n            accrued_interest = 0.\n", ""), "S2.floor-present")
+M("C06", "M9-floor-any-sign", (BR, "        if amount > 0. and accrued_interest < 0.:", "        if accrued_interest < 0.:"), "S2.floor-condition")
+M("C06", "M10-rebalance-queries-only", (BR, "self.accrued_interest(rebalancing.time, True)", "self.accrued_interest(rebalancing.time)"), "S7.accrue-true")
+M("C06", "M11-accrue-after-snapshot", (BR, "        rebalancing.profit_on_idle_cash = self.accrued_interest(rebalancing.time, True)\n        rebalancing.context_pre = self.context()\n", "        rebalancing.context_pre = self.context()\n        rebalancing.profit_on_idle_cash = self.accrued_interest(rebalancing.time, True)\n"), "S7.accrue-before-snapshot")
+M("C06", "M12-seed-after-events", (EN, "        self.exchange.process_EventNBBO(EventNBBO(self.now(), self._broker_fees.interest_rate, 0.0, 0.0))\n", ""), "S7.rate-seeded-first")
+M("C06", "M13-markup-abs-only", (BR, "        cagr = order_book.mid_price - self.fees.markup * np.sign(amount)", "        cagr = order_book.mid_price - self.fees.markup"), "S1.rate-minus-markup-times-sign")
+M("C06", "M14-bid-instead-of-mid", (BR, "        cagr = order_book.mid_price - self.fees.markup * np.sign(amount)", "        cagr = order_book.bid_price - self.fees.markup * np.sign(amount)"), "S1.rate-minus-markup-times-sign")
+M("C06", "M15-credit-differs-from-return", (BR, "            self._holdings_quantity[self.base_currency] += accrued_interest\n            self._last_accrual = now", "            self._holdings_quantity[self.base_currency] += round(accrued_interest, 2)\n            self._last_accrual = now"), "S5.credited-equals-returned")
+M("C06", "M16-accrual-default-true", (BR, "def accrued_interest(self, now: datetime, accrue: bool = False)", "def accrued_interest(self, now: datetime, accrue: bool = True)"), "S5.query-is-default")
+M("C06", "M17-rate-bound-loosened", (CO, "        if mid_price >= 0.25:", "        if mid_price >= 2.5:"), "S1.rate-bound")
+M("C06", "M18-clock-not-advanced", (BR, "            self._holdings_quantity[self.base_currency] += accrued_interest\n            self._last_accrual = now", "            self._holdings_quantity[self.base_currency] += accrued_interest"), "S5.clock-advances-to-now")
+M("C06", "M19-days-not-seconds", (BR, "        years = (now - self._last_accrual).total_seconds() / SECONDS_IN_YEAR", "        years = (now - self._last_accrual).days / 365"), "S3")
+E("C06", "E1-np-power", (BR, "        rate_period = (1 + cagr) ** years - 1", "        growth = (1 + cagr) ** years\n        rate_period = growth - 1"))
+E("C06", "E2-floor-swapped", (BR, "        if amount > 0. and accrued_interest < 0.:", "        if accrued_interest < 0 and 0 < amount:"))
+E("C06", "E3-years-inline", (BR, "        years = (now - self._last_accrual).total_seconds() / SECONDS_IN_YEAR", "        elapsed = (now - self._last_accrual).total_seconds()\n        years = elapsed / (365 * 24 * 3600)"))
